@@ -104,7 +104,7 @@ Section Chan.
       rewrite (v_rev F V). specialize (Hend Hge).
       destruct I as (pre & E & Ec & Hcl & Hg & Hpre).
       destruct (d_rest (cr_dec r)) as [|s rest] eqn:Er.
-      + rewrite (read_frame_none F _ Er). cbn [fst snd abs_out_data chan_of].
+      + rewrite (read_frame_none F V _ pre E Er Ec). cbn [fst snd abs_out_data chan_of].
         assert (Hr : {| cr_dec := cr_dec r; cr_consumed := cr_consumed r |} = r) by (destruct r; reflexivity).
         rewrite Hr. split; [exists pre; rewrite Er; auto|].
         rewrite nth_repeat_nil. split; [|split].
@@ -210,7 +210,8 @@ Section Chan.
   Qed.
 
   Lemma chan_seek_ok r s : CInv r -> s < U64 ->
-    CInv (fst (chan_seek F r s)) /\ cur_ok data (abs_c F c (r, CSeek s, snd (chan_seek F r s))).
+    CInv (fst (chan_seek F r s)) /\ cur_ok data (abs_c F c (r, CSeek s, snd (chan_seek F r s))) /\
+    (f_seekable F = true -> total_frames F < s -> cpos (fst (chan_seek F r s)) = lenN data).
   Proof.
     intros I Hs. pose proof (cpos_le r I) as Hle. pose proof cdata_total_len as Hlen.
     unfold cur_ok, abs_c. cbn [e_pos e_op e_out e_pos' chan_step]. unfold sample_target, chan_seek.
@@ -227,12 +228,13 @@ Section Chan.
       cbn [r0 cr_dec cr_consumed d_rest d_buf] in HS. specialize (HS ltac:(intros; lia) ltac:(lia)).
       fold r0 in HS. destruct (chan_skip F (S (S (S (length rest)))) r0 o s) as [r' out].
       destruct HS as (I' & [(Hdl & -> & P')|(Hdl & -> & P')]); cbn [fst snd abs_out_data chan_of no_item].
-      + split; [exact I'|]. split; [exact Hle|]. split; [now apply cpos_le|].
+      + split; [exact I'|]. split; [|intros _ Hgt; lia]. split; [exact Hle|]. split; [now apply cpos_le|].
         replace (s <=? total_frames F) with true by (symmetry; apply N.leb_le; lia).
         rewrite N.mul_1_r. split; [lia | exact P'].
-      + split; [exact I'|]. split; [exact Hle|]. split; [now apply cpos_le|].
+      + split; [exact I'|]. split; [|intros _ _; exact P']. split; [exact Hle|]. split; [now apply cpos_le|].
         replace (s <=? total_frames F) with false by (symmetry; apply N.leb_gt; lia).
         auto.
-    - cbn [fst snd abs_out_data chan_of no_item]. split; [exact I|]. split; [exact Hle|]. split; [exact Hle|]. auto.
+    - cbn [fst snd abs_out_data chan_of no_item]. split; [exact I|]. split; [|discriminate].
+      split; [exact Hle|]. split; [exact Hle|]. auto.
   Qed.
 End Chan.
